@@ -7,6 +7,9 @@ NARY = ['AND', 'OR', 'XOR', 'NAND', 'NOR', 'NXOR']
 UNARY = ['NOT', 'IFF']
 BINARY = ['GEQ', 'GT', 'LEQ', 'LT', 'LIFF', 'LNOT', 'RIFF', 'RNOT']
 CONST = ['ALWAYS_TRUE', 'ALWAYS_FALSE']
+# INPUT gates that carry operands are accepted by add_gate but are degenerate (see DESIGN 6.4 D24);
+# the regular generators do not produce them
+INPUT_WITH_OPERANDS = False
 BENCH_TYPES = ['NOT', 'AND', 'OR', 'NAND', 'NOR', 'XOR', 'NXOR', 'IFF']
 
 
@@ -277,7 +280,9 @@ def choose_op(rng, c, uuid_counter, p_invalid=0.15, allow=None):
     if k == 'emplace':
         g = random_gate(rng, labels)
         if g is None or rng.random() < 0.15:
-            return ('emplace', labels[0] if (invalid and labels) else ghost(), 'INPUT', [])
+            # an INPUT gate may legally carry (ignored) operands
+            iops = [rng.choice(labels)] if labels and INPUT_WITH_OPERANDS and rng.random() < 0.1 else []
+            return ('emplace', labels[0] if (invalid and labels) else ghost(), 'INPUT', iops)
         t, ops = g
         if invalid and rng.random() < 0.5:
             ops = ops + [ghost()]
@@ -452,7 +457,8 @@ def replace_subcircuit_op(rng, c, uuid_counter, invalid):
         return ('replace_subcircuit', sub, [], [], fresh)
     imap = list(zip(ins, sub['inputs']))
     omap = [(o, rng.choice(sub_non_in)) for o in outs]
-    if rng.random() < 0.3 and imap:
+    sub_labels = {g[0] for g in sub['gates']}
+    if rng.random() < 0.3 and imap and not any(a in sub_labels for a, _ in imap):
         # keep some labels unchanged
         i = rng.randrange(len(imap))
         old, new = imap[i]
